@@ -28,6 +28,8 @@ def jobs(tier, seed):
     J = []
     for o in c02.orders():
         J.append(dict(name="same-key:%s" % "+".join(o), kind="samekey", order=o, timeout=900, cost=100 * len(o)))
+    for sel in range(4):
+        J.append(dict(name="same-key:ecc-sel%d-other-selector-listed-first" % sel, kind="samekey", order=["ecc", "cust"], sel=sel, decoy=True, timeout=900, cost=150))
     for a, b in itertools.product(KINDS, KINDS):
         if a != b:
             J.append(dict(name="splice:%s|%s" % (a, b), kind="splice", pair=[a, b], timeout=900, cost=150))
@@ -110,7 +112,12 @@ def run_job(job):
             stubs.reset_log()
             key, ck, code = sym.sym_bytes("key", 16), sym.sym_bytes("ck", 16), sym.sym_bytes("code", 8)
             recipient = UFPrivate.generate()
-            blocks, enc = mk(order, key, ck, code, recipient)
+            SEL = job.get("sel", 2)
+            blocks, enc = mk(order, key, ck, code, recipient, sel=SEL)
+            if job.get("decoy"):
+                # encryptors for the other selectors come first in the list and must be ignored
+                decoys = [b2.EccEncryptor(s_, UFPrivate.generate().public_key) for s_ in range(4) if s_ != SEL]
+                enc = decoys + enc
             w = b2.Bec2File(content(), blocks, key)
             raw = w.to_binary(enc)
             tl, body = walk(raw)
@@ -292,13 +299,17 @@ def replay(job):
     def content():
         return bf.Bf3File({}, [bf.Bf3Component({0xC3: b"\x02"}, b"abc")])
 
+    SEL = job.get("sel", 2)
+
     def mk(order, ck, code):
         blocks, enc = [], []
+        if job.get("decoy"):
+            enc += [b2.EccEncryptor(s_, generate_private_ecc_key().public_key) for s_ in range(4) if s_ != SEL]
         for k in order:
             if k == "cust":
                 blocks.append(b2.InitCustKeyAuthBlock()); enc.append(b2.SoftwareCustKeyEncryptor(ck))
             elif k == "ecc":
-                blocks.append(b2.InitEccAuthBlock(2)); enc.append(b2.EccEncryptor(2, recipient.public_key))
+                blocks.append(b2.InitEccAuthBlock(SEL)); enc.append(b2.EccEncryptor(SEL, recipient.public_key))
             elif k == "update":
                 blocks.append(b2.UpdateAuthBlock(code, 5))
             else:
@@ -317,7 +328,10 @@ def replay(job):
             p = aes_dec(ck, val); return p[-18:-2]
         if k == "update":
             p = aes_dec(hashlib.sha256(code).digest()[:16], val); return p[-19:-3]
-        return b2.EccDecryptor(2, recipient).decrypt(val[1:])
+        try:
+            return b2.EccDecryptor(SEL, recipient).decrypt(val[1:])
+        except Exception as e:
+            return b"undecryptable by the addressed recipient: " + type(e).__name__.encode()
 
     for t in range(200):
         key = w.get("key", bytes(16)) if t == 0 else bytes(rnd.randrange(256) for _ in range(16))
